@@ -152,7 +152,10 @@ class Interp:
                 heap = h if heap is None else join_heap(heap, h)
             if heap is not None:
                 st.heap = heap
-            return SeqV(e, None, taint_of(e) if e is not None else frozenset())
+            total = Aff(0)
+            for c_ in frame.ycounts.values():
+                total = (total + c_) if (total is not None and c_ is not None) else None
+            return SeqV(e, total, taint_of(e) if e is not None else frozenset())
         if not frame.rets:
             raise PathEnd()
         val, heap = None, None
